@@ -26,6 +26,7 @@ META = {
 META["claim"] += " " + "Also driven: one ABNF object written several times (re-sent unchanged and with data/fin/opcode updated between writes) - every write is a frame of its own with a fresh key; the repository's own tests re-run with icontract postconditions on ABNF.format/ABNF.mask."
 META["claim"] += " " + 'Round 3b: equally shaped frames received (through the traced message-level call) and then sent on one connection, run first in every fresh shard process (process-wide formatting state), trace on and off.'
 META["claim"] += " " + 'Round 4: str payloads for continuation / binary / control frames through create_frame (text as its UTF-8 bytes); a key source set on the frame object; writes through DispatcherBase / Dispatcher / SSLDispatcher over a transport taking a few bytes at a time; frames of 2^20..2^24 (+-3) bytes; texts with BOM, separators, NUL, non-characters; ambient conditions (locks off, TLS transport, dispatcher write path, high descriptor numbers) drawn per connection.'
+META["claim"] += " " + 'Round 5: bytearray payloads through ping()/pong()/send(.., OPCODE_PING); a send that failed after part of its frame was accepted, then shutdown()/close()/loss and connect() again on the same object - the first frame on the new connection stands alone.'
 
 try:
     from websockets.frames import Frame as _WsFrame
